@@ -360,7 +360,8 @@ def check_C11(tier):
         rep.add(cfg, obs)
     rep.analysed = {"configurations": cl}
     ccl = ["default", "compact"] if tier == "quick" else E4_CONFIGS
-    results = run_jobs(_cutoff_jobs(ccl))
+    wjobs = [{"config": c, "mode": m, "model": "valid", "kind": "window", "target": fty} for c in ccl if "compact" in c for m in ("dbg", "rel") for fty in ("f32", "f64")]
+    results = run_jobs(_cutoff_jobs(ccl) + wjobs)
     cfx = F.build_many([(c, "rel") for c in ccl])
     stage = ("minimal_lexical::lemire::", "minimal_lexical::bellerophon::", "minimal_lexical::extended_float::")
     _e4_report(rep, "C11", results, lambda j: "%s stage" % j["config"], {"%s stage" % c: cfx[(c, "rel")] for c in ccl},
@@ -368,6 +369,9 @@ def check_C11(tier):
                floor_per_group=3)
     n_carry = sum(1 for r in results for res in r.get("results", []) for o in res["obs"] if o["kind"].startswith("carry-test"))
     rep.floor("carry tests on wrapping sums in the Eisel-Lemire product", n_carry, 1)
+    n_win = sum(1 for r in results for res in r.get("results", []) for o in res["obs"] if o["kind"].startswith("post:window width agrees"))
+    rep.floor("exponent classes on which error_is_accurate and round must use the same width (whole subnormal range + neighbours, f32 and f64, per mode)",
+              n_win, (28 + 57) * 2 * len([c for c in ccl if "compact" in c]))
     n_scale = sum(1 for r in results for res in r.get("results", []) for o in res["obs"] if o["kind"].startswith("scale-consumed"))
     rep.floor("call sites of normalize in the Bellerophon stage (scale-consumed rule)", n_scale, 1 * len([c for c in ccl if "compact" in c]))
     return rep.finish(
@@ -377,7 +381,10 @@ def check_C11(tier):
         "test between a wrapping unsigned sum and one of its own addends is one of the four forms equivalent to the carry (r < x, x > r, r >= x, x <= r) "
         "unless the other addend is provably non-zero -- the 128-bit product's high word is exact only if the carry is; the shift returned by "
         "bellerophon::normalize is consumed at every call site, or every value flowing into error_is_accurate's error argument is provably zero there (a dropped "
-        "shift leaves the pending error in the unit of the un-normalised significand); and every call-free exit that "
+        "shift leaves the pending error in the unit of the un-normalised significand); sibling agreement: for every biased exponent of the subnormal range "
+        "(singleton classes -64 .. -(63-MANTISSA_SIZE)+2) and for all larger exponents as one class, with significand and error estimate abstract, the width "
+        "error_is_accurate::<F> passes to lower_n_halfway/lower_n_mask is a single value and equals the width at which every nearest-even instance of "
+        "round::<F, _> rounds an extended float with that exponent (exponent -64: no width in the estimate, clamp to 64 in round); and every call-free exit that "
         "returns a literal zero/infinity is implied by the exponent bound of its own path. Whether a definite answer is the correctly rounded one is NOT decided.",
         A_E4 + [A_TOOL, A_TARGET],
     )
